@@ -54,6 +54,70 @@ def build_format(f, with_base=False):
     return b.format
 
 
+_COMMANDS = {}
+
+
+def build_command(f, fobj, cfg_lenient):
+    """the same format declared through the configuration route: a chain of CommandConfigs (one per command name, or an
+    anonymous one), arguments and options added with Config.add_argument / add_option; returns the leaf Command.
+    One Command per format object and configuration mode, kept for the whole run (a history on one object)."""
+    from clikit.api.command import Command
+    from clikit.api.config.command_config import CommandConfig
+    from clikit.api.args.format import Argument, Option
+
+    key = (id(fobj), cfg_lenient)
+    if key in _COMMANDS:
+        return _COMMANDS[key][1]
+    cfgs = []
+    for c in f["cnames"]:
+        cc = CommandConfig(txt(c["n"]))
+        cc.add_aliases([txt(a) for a in c["al"]])
+        if cfgs:
+            cfgs[-1].add_sub_command_config(cc)
+        cfgs.append(cc)
+    if not cfgs:
+        cfgs.append(CommandConfig("anon").anonymous())
+    leaf = cfgs[-1]
+    for a in f["args"]:
+        flags = (Argument.REQUIRED if a["req"] else Argument.OPTIONAL) | (Argument.MULTI_VALUED if a["multi"] else 0)
+        flags |= TYPE_ARG[a["type"]] | (Argument.NULLABLE if a["nullable"] else 0)
+        leaf.add_argument(a["name"], flags, None, raw_default(a["dflt"]))
+    for o in f["opts"]:
+        flags = MODE[o["mode"]] | TYPE_OPT[o["type"]] | (Option.NULLABLE if o["nullable"] else 0)
+        leaf.add_option(txt(o["long"]), o["short"] or None, flags, None, raw_default(o["dflt"]))
+    if cfg_lenient:
+        leaf.enable_lenient_args_parsing()
+    cmd = Command(cfgs[0])
+    for c in f["cnames"][1:]:
+        cmd = cmd.get_sub_command(txt(c["n"]))
+    _COMMANDS[key] = (fobj, cmd)   # keeps fobj alive so that its id is not reused
+    return cmd
+
+
+def command_route(f, fobj, toks, form):
+    """Command.parse(raw, lenient) for lenient = True, False, None on ONE raw-args object, on a command whose configuration
+    enables lenient parsing or not (alternating by the line)"""
+    import zlib
+
+    cfg_lenient = zlib.crc32(repr(toks).encode()) % 2 == 1
+    out = {"cfgLenient": cfg_lenient, "built": True}
+    try:
+        cmd = build_command(f, fobj, cfg_lenient)
+    except Exception as e:  # noqa
+        bad = {"err": "EXC:build:" + type(e).__name__, "result": dict(NORES)}
+        out.update({"built": False, "yes": bad, "no": bad, "dflt": bad})
+        return out
+    raw, _ = make_raw(list(toks), form)
+    for key, mode in (("yes", True), ("no", False), ("dflt", None)):
+        try:
+            parsed = cmd.parse(raw, mode) if mode is not None else cmd.parse(raw)
+            res, _x = project_args(f, parsed)
+            out[key] = {"err": "none", "result": res}
+        except Exception as e:  # noqa
+            out[key] = {"err": ERR.get(type(e).__name__, "EXC:" + type(e).__name__), "result": dict(NORES)}
+    return out
+
+
 def pv(v):
     """project a Python value into the model's value records"""
     if v is None:
@@ -170,7 +234,7 @@ def event(f, fobj, tokens, lenient, parser=None, mut=None, recipe=None, form="ar
     untouched = argv == argv0 and list(raw.tokens) == tok0 and listing(fobj) == before
     ferr, fres, _ = parse_once(DefaultArgsParser(), fobj, f, toks, lenient)
     oerr, ores, _ = parse_once(DefaultArgsParser(), fobj, f, toks, not lenient)
-    return {"f": f, "line": [list(t) for t in toks], "lenient": lenient, "obs": {"err": err, "result": res},
+    return {"cmd": command_route(f, fobj, toks, form), "f": f, "line": [list(t) for t in toks], "lenient": lenient, "obs": {"err": err, "result": res},
             "fresh": {"err": ferr, "result": fres}, "other": {"err": oerr, "result": ores}, "mut": mut or {"kind": "", "j": 0},
             "untouched": untouched, "hasRecipe": recipe is not None, "recipe": recipe or [],
             "hasExtra": extra is not None, "extra": extra or dict(NOEXTRA)}
